@@ -56,14 +56,16 @@ POOL = [
     '$.orderByDescending($).toList()',                                         # 17 a different ordering
     "[$defaults.delete(region).len(), $defaults.get(token), $.len()]",         # 18 host data kept in the shared context
     '1' + ' + 1' * 220,                                                        # 19 nested deeper than the interpreter's default recursion limit allows
+    'scale(k => $[0], v => 10) + scale(v => $[1], k => 2)',                    # 20 a function the prepared context defines in YAQL, keyword arguments only
+    '$ranked.select($ * 2).toList()',                                          # 21 a lazily sorted collection kept in the prepared context, not yet consumed
 ]
-DEEP = 19
+DEEP, KWCALL, LAZY = 19, 20, 21
 DOCS = [[1, 1, 2, 3, 3], [3, 3, 1, 2, 2], [2, 5, 5, 1], [2, 1], [2, 1, 3], [3, 1, 2]]
 CORE_Q = [1, 2, 3, 5, 7, 8, 16, 17]
 MONITOR_Q = [(1, 0), (3, 3), (8, 0), (12, 0), (18, 3)]      # (statement, document)
 BOUNDS = {
     'quick': 'coarse: all unordered pairs (incl. same statement twice) of an 8-statement core with preemption bound 1, 4 deep pairs with bound 2 where points**2 <= 25000 (small documents), each split into 6 disjoint shards, '
-             '4 triples with bound 1, 1 pair (a statement nested deeper than the default recursion limit allows || a short one) with bound 2; fine: 2 ordered pairs, every line event, on the warm shared context, and 1 pair on a fresh (cold) shared context per schedule; monitor: 4 statements',
+             '4 triples with bound 1, 1 pair (a statement nested deeper than the default recursion limit allows || a short one) with bound 2, 2 pairs on what the prepared context holds (a YAQL-defined function called with keyword arguments only, bound 2; a lazily sorted collection not yet iterated, rebuilt per schedule, bound 1); fine: 2 ordered pairs, every line event, on the warm shared context, and 1 pair on a fresh (cold) shared context per schedule; monitor: 4 statements',
     'thorough': 'coarse: all pairs of the 16-statement pool with bound 2 (bound 3 for an 8-pair core), all triples of a 5-statement core with bound 2, 3 pairs with the deeply nested statement at bound 2; '
                 'fine: 40 ordered pairs, every line event (warm context), 11 pairs on a cold context per schedule; monitor: all statements; yaql.eval module path',
 }
@@ -74,17 +76,32 @@ _S = {}
 def world():
     if not _S:
         _S['eng'] = yaql.YaqlFactory().create()
-        _S['root'] = yaql.create_context()
-        # hosts keep their own (raw, unconverted) data in the prepared context too
-        _S['root']['defaults'] = {'region': 'eu', 'token': 's3', 'retries': [3]}
         _S['st'] = [_S['eng'](t) for t in POOL]
+        _S['root'] = prepared_root(_S['eng'])
+        fresh_lazy()
     return _S
+
+
+def prepared_root(eng):
+    """The context a host prepares once and shares: the standard library, the host's own (raw, unconverted) data,
+    and a function defined by evaluating a YAQL statement (def() returns the context it extended)."""
+    base = yaql.create_context()
+    base['defaults'] = {'region': 'eu', 'token': 's3', 'retries': [3]}
+    return eng('def(scale, $k * $v)').evaluate(context=base)
+
+
+def fresh_lazy():
+    """A child of the prepared context holding $ranked = an orderBy() result nobody has iterated yet (its sort runs,
+    and is remembered, at the first iteration): rebuilt before every execution that uses it."""
+    if 'lazy_st' not in _S:
+        _S['lazy_st'] = _S['eng']('let(ranked => $.orderBy($ mod 3))')
+    _S['lazy'] = _S['lazy_st'].evaluate(data=[2, 3, 1], context=_S['root'].create_child_context())
 
 
 def evaluate(i, d):
     w = world()
     try:
-        return repr(w['st'][i].evaluate(data=DOCS[d], context=w['root'].create_child_context()))
+        return repr(w['st'][i].evaluate(data=DOCS[d], context=(w['lazy'] if i == LAZY else w['root']).create_child_context()))
     except RecursionError:
         # where exactly the interpreter gives up depends on the depth of the calling thread's own stack
         raise RecursionError('(message normalised)') from None
@@ -95,6 +112,8 @@ _base = {}
 
 def baseline(i, d):
     if (i, d) not in _base:
+        if i == LAZY:
+            fresh_lazy()
         try:
             _base[(i, d)] = ('ok', evaluate(i, d))
         except Exception as e:
@@ -230,10 +249,15 @@ def job_coarse(groups, max_bound, label, budget=None, shard=None):
     for g in groups:
         bound = max_bound
         if budget is not None:
-            tot = sum(len(sched.Execution([lambda i=i, d=d: evaluate(i, d)], [], None).go().trace) for i, d in g)
+            tot = 0
+            for i, d in g:
+                if i == LAZY:
+                    fresh_lazy()
+                tot += len(sched.Execution([lambda i=i, d=d: evaluate(i, d)], [], None).go().trace)
             while bound > 1 and tot ** bound > budget:
                 bound -= 1
         base = [baseline(i, d) for i, d in g]
+        lazy_reset = fresh_lazy if any(i == LAZY for i, d in g) else None
         d0 = shared_digest()
         bodies = [(lambda i=i, d=d: evaluate(i, d)) for i, d in g]
         CURRENT_CASE[0] = {'kind': 'coarse', 'threads': [list(x) for x in g], 'bound': bound}
@@ -251,7 +275,7 @@ def job_coarse(groups, max_bound, label, budget=None, shard=None):
                      for j in range(len(g)))
             if not ok:
                 stats['bad'] += 1
-                r2 = sched.run_schedule(bodies, x.choices)
+                r2 = sched.run_schedule(bodies, x.choices, reset=lazy_reset)
                 if list(r2.res) != list(x.res):
                     # the same schedule gives another result the second time: state survives an evaluation
                     res.fail('schedule outcome not reproducible (state carried over between evaluations) statements=%s'
@@ -274,7 +298,7 @@ def job_coarse(groups, max_bound, label, budget=None, shard=None):
                           'texts': [POOL[i] for i, d in g]}, 'identity digest of the shared context/statements/engine/modules changed',
                          size=len(x.choices))
         try:
-            n, capped = sched.explore(bodies, bound, check, max_schedules=400000, shard=shard)
+            n, capped = sched.explore(bodies, bound, check, max_schedules=400000, shard=shard, reset=lazy_reset)
         except _Stop:
             n, capped = stats['n'], False
             res.caps.append('coarse group %r stopped at a decided verdict (%d violating schedules, %d explored)' % (g, stats['bad'], n))
@@ -349,8 +373,8 @@ def cold_root():
     """A fresh standard-library context: function definitions nobody has called yet (what a definition builds
     lazily on its first call is built by whichever thread calls first)."""
     w = world()
-    w['root'] = yaql.create_context()
-    w['root']['defaults'] = {'region': 'eu', 'token': 's3', 'retries': [3]}
+    w['root'] = prepared_root(w['eng'])
+    fresh_lazy()
 
 
 def job_fine_cold(a, b, k_lo, k_hi):
@@ -554,6 +578,15 @@ def jobs(tier, seed):
         K = 8 if quick else 16
         for k in range(K):
             out.append(('coarse-recursion-%d-%02d' % (gi, k), 'job_coarse', ([g], 2, 'pair-recursion', None, (k, K))))
+    # what a prepared context holds besides the library: a function defined in YAQL called with keyword arguments only,
+    # and a lazily sorted collection that is first iterated by two evaluations at once
+    prepared = [(((KWCALL, 3), (KWCALL, 4)), 2), (((LAZY, 0), (LAZY, 0)), 1)]
+    if not quick:
+        prepared += [(((KWCALL, 3), (8, 0)), 2), (((LAZY, 0), (16, 3)), 2), (((LAZY, 0), (LAZY, 0)), 2), (((LAZY, 0), (LAZY, 0), (LAZY, 0)), 1)]
+    for gi, (g, b) in enumerate(prepared):
+        K = 4 if b == 2 else 1
+        for k in range(K):
+            out.append(('coarse-prepared-%d-%d' % (gi, k), 'job_coarse', ([g], b, 'pair-prepared', None, (k, K) if K > 1 else None)))
     tcore = [1, 2, 8] if quick else [1, 2, 5, 7, 8]
     triples = [((a, 0), (b, 1), (c, 2)) for a, b, c in itertools.combinations_with_replacement(tcore, 3)]
     if quick:
@@ -602,7 +635,7 @@ def replay(case):
     if k == 'coarse':
         g = [tuple(t) for t in case['threads']]
         bodies = [(lambda i=i, d=d: evaluate(i, d)) for i, d in g]
-        x = sched.run_schedule(bodies, case['choices'])
+        x = sched.run_schedule(bodies, case['choices'], reset=fresh_lazy if any(i == LAZY for i, d in g) else None)
         exp = [baseline(i, d) for i, d in g]
         return {'observed': repr(x.res), 'expected': repr(exp),
                 'ok': all(x.res[j][:2] == exp[j][:2] for j in range(len(g)))}
